@@ -1,5 +1,12 @@
 """C15 -- address parsing is exact, bounded and fails only with KeyError/OverflowError.
 
+Tie 1 (translator): `harness/py2lean_addr.py` regenerates `lean/Py65/Gen/AddrParserGen.lean` from the
+CURRENT `py65/utils/addressing.py` on every run (hook `pre_build`, inside the build lock);
+`Py65.Proofs.AddrParserGenEq` proves the generated functions equal to the hand model for all
+arguments and `Py65.Props.C15g` restates the property theorems for the generated definitions.  A
+refusal of the translator or a GenEq/C15g module that no longer builds is a broken tie; the
+exploration below is then the failing-input search.
+
 Tie 2 (hand model): `Py65.Model.AddrParser.number/range/labelFor` and `Py65.Model.PyStr.pyInt/fmt*`
 (compiled into the driver; protocol lines `num`, `rng`, `lbl`, `pyint`, `fmt`) against the real
 `py65.utils.addressing.AddressParser` and against CPython's `int(str, base)` / `%`-formatting, on
@@ -31,8 +38,8 @@ if HERE not in sys.path:
 from common import run_driver, REPO  # noqa: E402  (also puts PY65_REPO on sys.path)
 
 ID = 'C15'
-LEAN_MODULES = ['Py65.Props.C15']
-NAMESPACES = ['Py65.Props.C15']
+LEAN_MODULES = ['Py65.Props.C15', 'Py65.Proofs.AddrParserGenEq', 'Py65.Props.C15g']
+NAMESPACES = ['Py65.Props.C15', 'Py65.Proofs.AddrParserGenEq', 'Py65.Props.C15g']
 LEVEL = 'proof'
 USES_GEN = False
 EXPECTED_THEOREMS = [
@@ -43,6 +50,22 @@ EXPECTED_THEOREMS = [
     'Py65.Props.C15.num_malformed', 'Py65.Props.C15.range_ordered', 'Py65.Props.C15.range_errors',
     'Py65.Props.C15.range_pair', 'Py65.Props.C15.range_single', 'Py65.Props.C15.parser_wf',
     'Py65.Props.C15.num_dec_digit_limit',
+    # generated model = hand model (obligations a source change breaks)
+    'Py65.Proofs.AddrParserGenEq.set_maxwidth_eq', 'Py65.Proofs.AddrParserGenEq.get_maxwidth_eq',
+    'Py65.Proofs.AddrParserGenEq.constrain_eq', 'Py65.Proofs.AddrParserGenEq.init_eq',
+    'Py65.Proofs.AddrParserGenEq.init_defaults', 'Py65.Proofs.AddrParserGenEq.address_for_eq',
+    'Py65.Proofs.AddrParserGenEq.label_for_eq', 'Py65.Proofs.AddrParserGenEq.numberF_eq',
+    'Py65.Proofs.AddrParserGenEq.number_eq', 'Py65.Proofs.AddrParserGenEq.range_eq',
+    # the property theorems restated for the generated definitions
+    'Py65.Props.C15g.num_hex', 'Py65.Props.C15g.num_dec', 'Py65.Props.C15g.num_bin',
+    'Py65.Props.C15g.num_bare', 'Py65.Props.C15g.num_label', 'Py65.Props.C15g.num_label_offset',
+    'Py65.Props.C15g.num_label_offset_err', 'Py65.Props.C15g.num_label_offset_spellings',
+    'Py65.Props.C15g.num_bounded', 'Py65.Props.C15g.num_errors', 'Py65.Props.C15g.num_overflow',
+    'Py65.Props.C15g.num_malformed', 'Py65.Props.C15g.num_dec_digit_limit',
+    'Py65.Props.C15g.range_ordered', 'Py65.Props.C15g.range_errors', 'Py65.Props.C15g.range_pair',
+    'Py65.Props.C15g.range_single', 'Py65.Props.C15g.parser_wf', 'Py65.Props.C15g.init_errors',
+    'Py65.Props.C15g.maxwidth_property', 'Py65.Props.C15g.constrain_spec',
+    'Py65.Props.C15g.label_for_spec', 'Py65.Props.C15g.address_for_spec',
 ]
 RULE = ('widths {16,24,32} x radices {16,10,8,2} enumerated; n from boundary classes '
         '{0,1,9,10,15,16,255,256,2^(w-1),2^w-2,2^w-1,2^w,2^w+1,10^k-1,10^k} then uniform; every spelling '
@@ -52,9 +75,20 @@ RULE = ('widths {16,24,32} x radices {16,10,8,2} enumerated; n from boundary cla
         'real code returned a value or raised OverflowError, or the input came from a structured '
         '(near-valid) generator')
 TRUSTED = [
-    'hand model Py65.Model.AddrParser (number/range/labelFor, regexes as deterministic scanners) and '
-    'Py65.Model.PyStr (int(str,base), %x/%o/%u/{:b}, zfill/rjust) -- tied to the code by sampled '
-    'correspondence only (this check), not by translation',
+    'REGENERATED on every run from py65/utils/addressing.py by harness/py2lean_addr.py (ast-based; refuses '
+    'anything outside its enumerated subset): the control flow, statement order, operators, comparisons, '
+    'constants, default arguments, attribute set and exception flow of AddressParser.__init__, '
+    '_get/_set_maxwidth (the maxwidth property), address_for, label_for, number, range, _constrain '
+    '(lean/Py65/Gen/AddrParserGen.lean); Py65.Proofs.AddrParserGenEq proves them equal to the hand model '
+    'Py65.Model.AddrParser for all arguments, Py65.Props.C15g restates the property theorems for them',
+    'still MODELLED (library behaviour, named helpers of Py65.Model.PyRt / PyStr / AddrParser, tied by the '
+    'sampled correspondence of this check): the two regular expressions as deterministic scanners (mapped '
+    'only for the exact pattern strings in the translator\'s table), int(str, base), str.startswith, s[1:], '
+    'dict get/set/in/items with insertion order, exception propagation and try/except as Except, the '
+    'recursion bound (fuel 1000 = sys.getrecursionlimit()), %x/%o/%u/{:b}, zfill/rjust',
+    'the translator py2lean_addr.py itself (CPython evaluation order for the accepted subset is modelled: '
+    'raising sub-expressions are hoisted left to right) and its parameter/attribute type table '
+    '(maxwidth, radix: natural numbers; labels: str -> int)',
     'CPython 3.12 `re`, `int(str, base)` and %-formatting are modelled for ASCII input, not verified',
     'the Python oracle of this module (digit routine, expected outcomes by construction)',
     "CPython's default int digit limit sys.get_int_max_str_digits() = 4300 (PYTHONINTMAXSTRDIGITS / -X "
@@ -71,6 +105,8 @@ ASSUMPTIONS = [
     'label whose name starts with $ + or % is shadowed by the number prefixes and a label that is '
     'also a digit string shadows the number: both are excluded from the round-trip claims',
     'radix is one of 16/10/8/2 (what the monitor can set)',
+    'translator typing: maxwidth and radix are natural numbers, label values are ints, inputs are str; '
+    'exception messages are not modelled (only the exception class)',
 ]
 
 WIDTHS = (16, 24, 32)
@@ -595,6 +631,35 @@ def merge(total, r):
     total['distinct'] |= r['distinct']
     total['nontriv'] |= r['nontriv']
     total['samples'] += r['samples']
+
+
+def pre_build(ctx):
+    """Tie 1: regenerate lean/Py65/Gen/AddrParserGen.lean from the current source (called by check.py
+    inside the build lock, before `lake build`).  A refusal is a broken tie, not a violation."""
+    import subprocess
+    from common import LEAN
+    rep = os.path.join(ctx.work, 'py2lean_addr.json')
+    p = subprocess.run([sys.executable, os.path.join(HERE, 'py2lean_addr.py'), '--repo', REPO,
+                        '--out', os.path.join(LEAN, 'Py65', 'Gen'), '--report', rep],
+                       stdout=subprocess.PIPE, stderr=subprocess.STDOUT, timeout=120)
+    r = {}
+    try:
+        r = json.load(open(rep))
+    except Exception:
+        pass
+    if p.returncode != 0 or not r.get('ok'):
+        ctx.broken.append(dict(kind='translator',
+                               what='py2lean_addr refused py65/utils/addressing.py (%s)'
+                                    % (r.get('where') or 'no location'),
+                               detail=(r.get('error') or p.stdout.decode('utf-8', 'replace'))[-1500:],
+                               where=r.get('where'), function=r.get('function')))
+        ctx.note('translator refusal: %s' % (r.get('error') or '?')[:200])
+        return
+    ctx.stats['translator'] = dict(functions=r.get('functions'), methods=r.get('methods'),
+                                   rewritten=r.get('written'), source_sha256=r.get('source_sha256'),
+                                   tool='harness/py2lean_addr.py')
+    if r.get('written'):
+        ctx.note('generated model changed: %s rewritten' % ', '.join(r['written']))
 
 
 def explore(ctx):
